@@ -21,6 +21,68 @@ PROPS = {
         "assumptions": ["WrapFrame (wrapper keeps token vector, changes only blanks of contents) - checked per case (wc=1)",
                         "token contents have no dangling E3 byte (consequence of valid UTF-8; checked per case, nd=1)"],
     },
+    "C07": {
+        "level": "proof",
+        "lean": ["PasfmtModel.Props.C07"],
+        "streams": [
+            {"stream": "fmt", "families": ALL_FAMILIES + ",regions", "quick": 3000, "thorough": 40000,
+             "binding": ["marks", "lv", "prec", "out", "*"], "args": {"oracles": "c07"}},
+        ],
+        "oracle_prefixes": ["c07", "glue"],
+        "abnormal_binding": False,
+        "explanation": "verbatim_emitted: for every counter assignment, every run of ignored tokens is emitted as scanned, provided no "
+                       "safety-net break falls inside the run (decidable; evaluated per case as info_sr); ignored tokens cannot be "
+                       "rewritten (guarded setter). Toggle recogniser, marks, void step and reconstruction are exact models tied by the "
+                       "fmt stream (fields marks, lv, out).",
+        "assumptions": ["asm bodies are AsmInstruction lines (parser control flow; line types come from the real parser in every case)",
+                        "no safety-net break inside a verbatim run (false only for line comments ended by a lone CR: known finding F4)"],
+    },
+    "C08": {
+        "level": "proof",
+        "lean": ["PasfmtModel.Props.C08"],
+        "streams": [
+            {"stream": "fmt", "families": ALL_FAMILIES, "quick": 3000, "thorough": 40000,
+             "binding": ["pre", "out", "*"], "args": {"oracles": "c08"}},
+        ],
+        "oracle_prefixes": ["c08", "glue"],
+        "abnormal_binding": False,
+        "explanation": "gap_shape / indent_whole_units / eof_one_newline / spacingRule_le_one: with canonical final counters (decidable "
+                       "canonFmt, tallied per case as info_cn) the reconstructor emits nothing-or-one-space on a line, or 1-2 configured "
+                       "breaks followed by whole indentation units. Exact models of TokenSpacing, EofNewline, settings conversion and "
+                       "reconstruction are tied by the fmt stream (pre, out). The direct line-scanner oracle runs on every case.",
+        "assumptions": ["final counters are canonical (wrapper contract; not established for lines the wrapper cannot solve)",
+                        "continuation_indents*tab_width <= 255 for the unit law (saturation is known finding F6)"],
+    },
+    "C09": {
+        "level": "proof",
+        "lean": ["PasfmtModel.Props.C09"],
+        "streams": [
+            {"stream": "fmt", "families": ALL_FAMILIES, "quick": 2500, "thorough": 30000,
+             "binding": ["pre", "out", "*"], "args": {"oracles": "c09"}},
+        ],
+        "oracle_prefixes": ["c09", "glue"],
+        "abnormal_binding": False,
+        "explanation": "recon_crlf_subst: for fixed counters the crlf rendering is the lf rendering with terminators substituted "
+                       "(tokens emitted verbatim must be line-break free: info_nn); emitted_breaks_are_nl; fmtdata_crlf. That the "
+                       "wrapper's decisions do not depend on the newline string is checked by the lf/crlf oracle on every case.",
+        "assumptions": ["WrapDeterministic: wrapper decisions independent of the newline string (metamorphic oracle, not a theorem)"],
+    },
+    "C10": {
+        "level": "proof",
+        "lean": ["PasfmtModel.Props.C10"],
+        "streams": [
+            {"stream": "fmt", "families": "seeds_sample,grammar,layout", "quick": 2500, "thorough": 30000,
+             "binding": ["out", "*"], "args": {"oracles": "c10"}},
+        ],
+        "oracle_prefixes": ["c10", "glue"],
+        "abnormal_binding": False,
+        "explanation": "recon_tabs_to_spaces / indent_units: for fixed counters and ci*tw<=255 expanding tabs of the use_tabs rendering "
+                       "gives the spaces rendering; indentation = (levels + ci*continuations) units. Settings conversion and "
+                       "reconstruction are exact models (fmt stream). Decision-independence with unconstrained width is checked by "
+                       "the tabs/spaces pair oracle on every well-formed case.",
+        "assumptions": ["wrapper decisions agree under both settings when wrap_column is unconstrained (oracle, not a theorem)",
+                        "continuation_indents*tab_width <= 255 (F6)"],
+    },
     "C13": {
         "level": "proof",
         "lean": ["PasfmtModel.Props.C13"],
